@@ -193,6 +193,16 @@ func Lex(s string) []string {
 		if matched {
 			continue
 		}
+		if s[0] >= '0' && s[0] <= '9' {
+			j := 0
+			for j < len(s) && s[j] >= '0' && s[j] <= '9' {
+				j++
+			}
+			flush()
+			out = append(out, "n"+s[:j])
+			s = s[j:]
+			continue
+		}
 		r, n := utf8.DecodeRuneInString(s)
 		if r == utf8.RuneError && n == 1 {
 			flush()
